@@ -183,7 +183,7 @@ def u_reject():
         I.call_func(I.repo.get(q), [s['X'], s['Y']], dict(cell_length=bad))
         I.ob('reject[C15]:mismatched-cell-dimension-is-rejected', BoolVal(False), kind='post')
     return Unit('periodic_pairwise_euclidean_distances[mismatched-cell]', body, functions=[q, PW + '._check_dimension'],
-                on_raise=lambda I, st, r: r.kind == 'ValueError')
+                on_raise=lambda I, st, r: r.kind == 'ValueError', reject_name='reject[C15]:mismatched-cell-dimension-is-rejected')
 
 def u_reject_m():
     q = PW + '.pairwise_mahalanobis_distances'
@@ -193,7 +193,7 @@ def u_reject_m():
         C = I.fresh_arr('cov_inv', (s['D'], s['D']))
         I.call_func(I.repo.get(q), [s['X'], s['Y'], C], dict(cell_length=bad))
         I.ob('reject[C15]:mismatched-cell-dimension-is-rejected', BoolVal(False), kind='post')
-    return Unit('pairwise_mahalanobis_distances[mismatched-cell]', body, functions=[q, PW + '._check_dimension'], on_raise=lambda I, st, r: r.kind == 'ValueError')
+    return Unit('pairwise_mahalanobis_distances[mismatched-cell]', body, functions=[q, PW + '._check_dimension'], on_raise=lambda I, st, r: r.kind == 'ValueError', reject_name='reject[C15]:mismatched-cell-dimension-is-rejected')
 
 def u_mahalanobis(stack, with_cell, squared):
     q = PW + '.pairwise_mahalanobis_distances'
